@@ -15,6 +15,8 @@ struct Sys {
     /// Some(true/false): solvability known by construction (systems too large for the dense oracle and for
     /// the quadratic plain elimination: only the lazy solver runs on them)
     planted: Option<bool>,
+    /// Some(false): plain elimination only; Some(true): lazy only; None: both (planted systems: lazy only)
+    only_lazy: Option<bool>,
 }
 
 trait TW: Word + std::fmt::Debug {
@@ -196,7 +198,7 @@ fn decode(u: &mut Unstructured, wbits: u32) -> Sys {
         }
         _ => {}
     }
-    Sys { wbits, num_vars, eqs, planted: None }
+    Sys { wbits, num_vars, eqs, planted: None, only_lazy: None }
 }
 
 /// Exhaustive sub-domain: <= 3 variables, <= 4 equations, 1-bit constants.
@@ -218,7 +220,7 @@ fn enumerated(j: u64) -> Sys {
         let vars: Vec<u32> = (0..3).filter(|b| (subset >> b) & 1 == 1).collect();
         eqs.push((vars, (e % 2) as u128));
     }
-    Sys { wbits: 64, num_vars: 3, eqs, planted: None }
+    Sys { wbits: 64, num_vars: 3, eqs, planted: None, only_lazy: None }
 }
 
 /// Systems with very long rows (a global parity row and friends) around the
@@ -262,7 +264,7 @@ fn long_rows(j: u64) -> Sys {
         let (v, c) = eqs.iter().max_by_key(|e| e.0.len()).unwrap().clone();
         eqs.push((v, c ^ 1));
     }
-    Sys { wbits: 64, num_vars, eqs, planted: None }
+    Sys { wbits: 64, num_vars, eqs, planted: None, only_lazy: None }
 }
 
 /// More than 2^16 sparse equations with a few variables that occur in about
@@ -305,7 +307,46 @@ fn many_equations(j: u64) -> Sys {
         let (v, c) = eqs[m / 2].clone();
         eqs.push((v, c ^ 4));
     }
-    Sys { wbits: 64, num_vars, eqs, planted: Some(planted) }
+    Sys { wbits: 64, num_vars, eqs, planted: Some(planted), only_lazy: Some(true) }
+}
+
+/// Variable indices more than 2^31 apart (u32 variables: up to 2^32 - 1 are
+/// legal). Only the plain elimination: its sole per-variable memory is the
+/// zero-initialised solution vector of u8 (untouched pages), while the lazy
+/// solver keeps several words per variable.
+fn huge_indices(j: u64) -> Sys {
+    let b: u32 = 1 << 31;
+    let num_vars = [(1usize << 31) + 16, (1usize << 32) - 1, 3usize << 30, (1usize << 31) + 1_000_000][j as usize % 4];
+    let top = num_vars as u64 - 1;
+    let sol = |v: u32| -> u128 { ((v as u64 + 11).wrapping_mul(0x9E37_79B9_7F4A_7C15) >> 9) as u128 & 0xFF };
+    let hi = |d: u64| -> u32 { (b as u64 + d).min(top) as u32 };
+    let mut rows: Vec<Vec<u32>> = match (j / 4) % 4 {
+        0 => vec![vec![0, 5, hi(7)], vec![0, hi(6)], vec![5, hi(7), hi(9)], vec![1, hi(1)]],
+        1 => vec![vec![0, hi(0)], vec![0, 1, hi(0)], vec![1, 2, top as u32], vec![2, b - 1, hi(0)], vec![3, top as u32]],
+        2 => vec![vec![7, b - 1], vec![7, b], vec![b - 1, b, hi(1)], vec![0, 7, top as u32], vec![0, hi(1)]],
+        _ => vec![vec![0, 1, 2], vec![0, hi(3), hi(5)], vec![1, hi(3)], vec![2, hi(5), top as u32], vec![0, 1, top as u32], vec![hi(3), top as u32]],
+    };
+    for r in rows.iter_mut() {
+        r.sort_unstable();
+        r.dedup();
+    }
+    if j % 2 == 1 {
+        rows.reverse();
+    }
+    let mut eqs: Vec<(Vec<u32>, u128)> = rows.into_iter().map(|vars| { let c = vars.iter().fold(0u128, |a, v| a ^ sol(*v)); (vars, c) }).collect();
+    let planted = (j / 16) % 3 != 2;
+    if !planted {
+        // the sum of the first two rows with another constant
+        let (a, bq) = (eqs[0].clone(), eqs[1].clone());
+        let mut v: Vec<u32> = a.0.iter().filter(|x| !bq.0.contains(x)).chain(bq.0.iter().filter(|x| !a.0.contains(x))).copied().collect();
+        v.sort_unstable();
+        if !v.is_empty() {
+            eqs.push((v, a.1 ^ bq.1 ^ 1));
+        } else {
+            eqs.push((eqs[2].0.clone(), eqs[2].1 ^ 1));
+        }
+    }
+    Sys { wbits: 8, num_vars, eqs, planted: Some(planted), only_lazy: Some(false) }
 }
 
 pub const ENUM_COUNT: u64 = 1 + 14 + 196 + 2744 + 38416;
@@ -325,8 +366,8 @@ fn run_w<W: TW>(cx: &mut Ctx, s: &Sys) -> R {
     cx.label(if solvable { "solvable" } else { "unsolvable" });
     let orig = cx.must("build", build)?;
     for lazy in [false, true] {
-        if !lazy && s.planted.is_some() {
-            continue; // the plain elimination is quadratic in the number of equations
+        if s.only_lazy.is_some_and(|l| l != lazy) {
+            continue; // the plain elimination is quadratic in the number of equations; the lazy one needs memory per variable
         }
         let name = if lazy { "lazy_gaussian_elimination" } else { "gaussian_elimination" };
         let mut sys = cx.must("clone", || orig.clone())?;
@@ -335,9 +376,12 @@ fn run_w<W: TW>(cx: &mut Ctx, s: &Sys) -> R {
             Ok(sol) => {
                 cx.check(solvable, name, || format!("{name} returned Ok on an unsolvable system"))?;
                 cx.check_eq(sol.len(), s.num_vars, name, || format!("{name}: solution length"))?;
-                let sol128: Vec<u128> = sol.iter().map(|x| x.to128()).collect();
                 // the harness' own evaluator, so a broken check() cannot vouch for a broken solver
-                cx.check(eval(s, &sol128), name, || format!("{name} returned an assignment violating an equation: {:x?}{}", &sol128[..sol128.len().min(12)], if sol128.len() > 12 { " ..." } else { "" }))?;
+                let bad = s.eqs.iter().position(|(vars, c)| vars.iter().fold(0u128, |a, v| a ^ sol[*v as usize].to128()) != *c);
+                if let Some(i) = bad {
+                    let vals: Vec<(u32, u128)> = s.eqs[i].0.iter().take(8).map(|v| (*v, sol[*v as usize].to128())).collect();
+                    return Err(Fail::mismatch(name, format!("{name}: {name} returned an assignment violating equation {i} ({} variables, constant {:#x}); values of its first variables: {vals:x?}", s.eqs[i].0.len(), s.eqs[i].1)));
+                }
                 // and check() of the pristine system
                 let ok = cx.must("check", || orig.check(&sol))?;
                 cx.check(ok, "check", || format!("check() rejects a satisfying assignment returned by {name}"))?;
@@ -346,6 +390,9 @@ fn run_w<W: TW>(cx: &mut Ctx, s: &Sys) -> R {
                 cx.check(!solvable, name, || format!("{name} returned an error on a solvable system"))?;
             }
         }
+    }
+    if s.num_vars > 1 << 24 {
+        return Ok(()); // no full assignments for systems with billions of variables
     }
     // check() itself against the evaluator on a few assignments
     let mut x = 0x1234_5678_9abc_def0u128 ^ (s.eqs.len() as u128);
@@ -379,10 +426,12 @@ impl Property for C19 {
             Segment::enumerated("long-rows", tier.pick(24, 96), &[0xF1]),
             // more than 2^16 equations, variables occurring in about 2^16 of them
             Segment::enumerated("many-equations", tier.pick(8, 96), &[0xF2]),
+            // variable indices more than 2^31 apart
+            Segment::enumerated("huge-variable-indices", tier.pick(16, 48), &[0xF3]),
         ]
     }
     fn rule(&self) -> &'static str {
-        "case = system over W in {u8,u16,u64,usize,u128} with <=70 variables and <=~70 equations whose variable lists are non-empty, strictly increasing and below num_vars (sizes 1..6, mostly 3), shaped as planted-solution, planted+contradictory combination, arbitrary constants, repeated rows, rank-deficient, 3-uniform and fuse-like (segment) systems; plus the complete enumeration of all systems with 3 variables, <=4 equations and 1-bit constants. plus an enumerated segment of planted/contradictory systems with rows of 255..257, 511, 65535..65538, 70000 and 131072 variables (global parity rows, halves, near-complements) next to short rows. plus an enumerated segment of 65537..68536 sparse equations over 66000..131072 variables in which 2-3 variables occur in 65535..65540 (or all) equations, solvable by construction or with one contradicting copy (lazy solver only: the plain elimination is quadratic). Oracle = independent dense Gauss-Jordan elimination in the harness; both solvers run on clones: Ok iff solvable, solution length, harness evaluator and check(). Non-trivial: at least 2 equations sharing a variable; distinct = distinct hash of the decoded system."
+        "case = system over W in {u8,u16,u64,usize,u128} with <=70 variables and <=~70 equations whose variable lists are non-empty, strictly increasing and below num_vars (sizes 1..6, mostly 3), shaped as planted-solution, planted+contradictory combination, arbitrary constants, repeated rows, rank-deficient, 3-uniform and fuse-like (segment) systems; plus the complete enumeration of all systems with 3 variables, <=4 equations and 1-bit constants. plus an enumerated segment of planted/contradictory systems with rows of 255..257, 511, 65535..65538, 70000 and 131072 variables (global parity rows, halves, near-complements) next to short rows. plus an enumerated segment of 65537..68536 sparse equations over 66000..131072 variables in which 2-3 variables occur in 65535..65540 (or all) equations, solvable by construction or with one contradicting copy (lazy solver only: the plain elimination is quadratic). plus planted/contradictory systems over 2^31+16 .. 2^32-1 variables of u8 whose rows mix indices below and above 2^31 (plain elimination only). Oracle = independent dense Gauss-Jordan elimination in the harness; both solvers run on clones: Ok iff solvable, solution length, harness evaluator and check(). Non-trivial: at least 2 equations sharing a variable; distinct = distinct hash of the decoded system."
     }
     fn run(&self, data: &[u8], cx: &mut Ctx) -> R {
         let (mode, rest) = data.split_first().unwrap_or((&0, &[]));
@@ -391,6 +440,11 @@ impl Property for C19 {
             b[..rest.len().min(8)].copy_from_slice(&rest[..rest.len().min(8)]);
             cx.label("enumerated");
             enumerated(u64::from_le_bytes(b) % ENUM_COUNT)
+        } else if *mode == 0xF3 {
+            let mut b = [0u8; 8];
+            b[..rest.len().min(8)].copy_from_slice(&rest[..rest.len().min(8)]);
+            cx.label("huge_variable_indices");
+            huge_indices(u64::from_le_bytes(b))
         } else if *mode == 0xF2 {
             let mut b = [0u8; 8];
             b[..rest.len().min(8)].copy_from_slice(&rest[..rest.len().min(8)]);
@@ -409,15 +463,14 @@ impl Property for C19 {
         cx.hash(&s);
         cx.describe(|| if s.num_vars > 200 && s.eqs.len() > 1000 { format!("Sys {{ wbits: {}, num_vars: {}, {} sparse equations, planted: {:?} }}", s.wbits, s.num_vars, s.eqs.len(), s.planted) } else if s.num_vars > 200 { format!("Sys {{ wbits: {}, num_vars: {}, eqs (lengths, constant): {:?} }}", s.wbits, s.num_vars, s.eqs.iter().map(|(v, c)| (v.len(), v.first().copied(), v.last().copied(), *c)).collect::<Vec<_>>()) } else { format!("{:?}", s) });
         let mut shares = false;
-        let mut seen = vec![false; s.num_vars];
+        let mut seen = std::collections::HashSet::new();
         for (vars, _) in &s.eqs {
             for v in vars {
-                shares |= seen[*v as usize];
-                seen[*v as usize] = true;
+                shares |= !seen.insert(*v);
             }
         }
         cx.nontrivial_if(s.eqs.len() >= 2 && shares);
-        cx.label_if(seen.iter().any(|x| !*x), "unused_var");
+        cx.label_if(seen.len() < s.num_vars, "unused_var");
         cx.label_if(s.eqs.len() > s.num_vars, "overdetermined");
         // the word type follows the width the constants were generated for (any mode byte, as a fuzzer may send)
         match (*mode, s.wbits) {
